@@ -7,6 +7,7 @@ import (
 	"fmt"
 	"strings"
 	"sync"
+	"time"
 
 	"go.brendoncarroll.net/p2p"
 	"go.brendoncarroll.net/p2p/f/x509"
@@ -103,6 +104,9 @@ func (l Layer) String() string {
 		}
 		return fmt.Sprintf("mux:%s(%s)", l.Mux, c)
 	case "multi":
+		if l.N == 2 {
+			return fmt.Sprintf("multi(%s,%s-small)", l.Name, l.Name)
+		}
 		return fmt.Sprintf("multi(%s)", l.Name)
 	case "quic":
 		return fmt.Sprintf("quic(%d)", l.MTU)
@@ -122,14 +126,20 @@ type Spec struct {
 	Base     string // mem udp udp6
 	BaseMTU  int    // mem
 	QueueLen int    // mem
-	Layers   []Layer
+	// Transform installs a pass-through tell transform on the in-memory realm (another code path in vswarm)
+	Transform bool
+	Layers    []Layer
 }
 
 func (s Spec) String() string {
 	var parts []string
 	switch s.Base {
 	case "mem":
-		parts = append(parts, fmt.Sprintf("mem(mtu=%d,q=%d)", s.BaseMTU, s.QueueLen))
+		if s.Transform {
+			parts = append(parts, fmt.Sprintf("mem(mtu=%d,q=%d,transform)", s.BaseMTU, s.QueueLen))
+		} else {
+			parts = append(parts, fmt.Sprintf("mem(mtu=%d,q=%d)", s.BaseMTU, s.QueueLen))
+		}
 	default:
 		parts = append(parts, s.Base)
 	}
@@ -158,12 +168,22 @@ type World struct {
 	Nodes []*Node
 }
 
+// Close closes every node. It is bounded: a Close that does not come back (which is C12's subject) must not
+// turn a failure that was already detected into a test time-out.
 func (w *World) Close() {
-	for _, n := range w.Nodes {
-		func() {
-			defer func() { recover() }()
-			n.S.Close()
-		}()
+	done := make(chan struct{})
+	go func() {
+		defer close(done)
+		for _, n := range w.Nodes {
+			func() {
+				defer func() { recover() }()
+				n.S.Close()
+			}()
+		}
+	}()
+	select {
+	case <-done:
+	case <-time.After(5 * time.Second):
 	}
 }
 
@@ -206,7 +226,11 @@ func Build(spec Spec, n int, keyBase int) (*World, error) {
 	w := &World{Spec: spec}
 	var realm *memswarm.SecureRealm[PubKey]
 	if spec.Base == "mem" {
-		realm = memswarm.NewSecureRealm[PubKey](memswarm.WithMTU(spec.BaseMTU), memswarm.WithQueueLen(spec.QueueLen))
+		opts := []memswarm.Option{memswarm.WithMTU(spec.BaseMTU), memswarm.WithQueueLen(spec.QueueLen)}
+		if spec.Transform {
+			opts = append(opts, memswarm.WithTellTransform(func(*memswarm.Message) bool { return true }))
+		}
+		realm = memswarm.NewSecureRealm[PubKey](opts...)
 	}
 	for i := 0; i < n; i++ {
 		nd := &Node{Key: i + keyBase}
@@ -286,11 +310,16 @@ func applyLayer(nd *Node, l Layer) (err error) {
 			return err
 		}
 	case "multi":
-		if nd.A != nil && nd.Sec != nil {
+		if nd.A != nil && nd.Sec != nil && l.N != 2 {
 			ms := multiswarm.NewSecureAsk[PubKey](map[string]multiswarm.DynSecureAskSwarm[PubKey]{
 				l.Name: p2p.ComposeSecureAskSwarm[Addr, PubKey](nd.S, nd.A, nd.Sec),
 			})
 			nd.S, nd.A, nd.Sec = Erase[multiswarm.Addr](ms), EraseAsk[multiswarm.Addr](ms), EraseSec[multiswarm.Addr](ms)
+		} else if l.N == 2 {
+			// two transports with different MTUs: the second scheme reaches the same peers through a wrapper
+			// that reports (and enforces) half the MTU and leaves receiving to the first scheme
+			ms := multiswarm.New(map[string]multiswarm.DynSwarm{l.Name: nd.S, l.Name + "-small": capSwarm{Swarm: nd.S, mtu: max(1, nd.S.MTU()/2), stop: make(chan struct{})}})
+			nd.S, nd.A, nd.Sec = Erase[multiswarm.Addr](ms), nil, nil
 		} else {
 			ms := multiswarm.New(map[string]multiswarm.DynSwarm{l.Name: nd.S})
 			nd.S, nd.A, nd.Sec = Erase[multiswarm.Addr](ms), nil, nil
@@ -504,4 +533,36 @@ func (e *errClose) Close() error {
 type errCloseAsk struct {
 	*errClose
 	AskBidi
+}
+
+// capSwarm is a second transport to the same peers with a smaller MTU. It never receives (the transport it
+// wraps is also registered under its own scheme, which does the receiving).
+type capSwarm struct {
+	Swarm
+	mtu  int
+	stop chan struct{}
+}
+
+func (c capSwarm) MTU() int { return c.mtu }
+func (c capSwarm) Tell(ctx context.Context, dst Addr, v p2p.IOVec) error {
+	if p2p.VecSize(v) > c.mtu {
+		return p2p.ErrMTUExceeded
+	}
+	return c.Swarm.Tell(ctx, dst, v)
+}
+func (c capSwarm) Receive(ctx context.Context, fn func(Msg)) error {
+	select {
+	case <-ctx.Done():
+		return ctx.Err()
+	case <-c.stop:
+		return p2p.ErrClosed
+	}
+}
+func (c capSwarm) Close() error {
+	select {
+	case <-c.stop:
+	default:
+		close(c.stop)
+	}
+	return c.Swarm.Close()
 }
